@@ -17,6 +17,14 @@ CHECKS = {
             "the scripts are re-entrant programs; the abstract spec is the snapshot/cursor semantics of the statement; hangs (lock held across a "
             "callback) and freed-memory accesses are observed by watchdog and ASan on every execution.",
             "TLA+ model checking (TLC) + transition-cover replay of re-entrant programs + TLC trace validation"),
+    "C14": (MC, "7/C14", "seq",
+            "HetGen.tla is the reference model of prototype binding (first listed prototype a callback / an argument list / a predicate is callable "
+            "with - the tables are static_assert-ed against the library's own traits in the harness), of per-prototype callback lists and of the "
+            "mixed event queue (exactly once, FIFO, processIf touches only callable prototypes); TLC checks its ledger on all bounded histories and "
+            "emits the cover; the scripts run on HeterCallbackList / HeterEventDispatcher / HeterEventQueue with five prototypes of differently "
+            "sized tracked argument types (recycled slots, converting arguments, generic callbacks and predicates); TraceHet.tla judges each "
+            "execution, type confusion shows through the payloads' live-address registry and self-checks and through ASan/UBSan.",
+            "TLA+ model checking (TLC) of the reference model + transition-cover replay + TLC trace validation"),
     "C15": (MC, "7/C15", "seq",
             "RemGen.tla is the reference state machine of ScopedRemover (who answers for which listener, target, liveness) with the statement's "
             "invariants checked by TLC on all bounded histories of add/remove through removers, reset, setDispatcher, move construction, move "
